@@ -8,7 +8,7 @@ V="$(cd "$(dirname "$0")/.." && pwd)"
 S="$(mktemp -d)"
 [ -f "$V/evidence/$ID.json" ] && cp "$V/evidence/$ID.json" "$S/ev.json"
 git -C /repo apply "$P" || { rm -rf "$S"; exit 2; }
-cd "$V" && timeout 1500 ./check "$ID" --tier "$TIER" 2>"$S/err.log" | tail -3
+cd "$V" && timeout 1500 ./check "$ID" --tier "$TIER" 2>"$S/err.log" | tail -3; cp "$V/replays/$ID-seed${VERIF_SEED:-0}.json" "$S/replay.json" 2>/dev/null
 git -C /repo checkout -- .
 cp "$V/evidence/$ID.json" "$S/mutated-ev.json" 2>/dev/null
 if [ -f "$S/ev.json" ]; then cp "$S/ev.json" "$V/evidence/$ID.json"; else rm -f "$V/evidence/$ID.json"; fi
